@@ -1,8 +1,14 @@
 use std::cell::RefCell;
 use std::collections::HashMap;
+#[cfg(not(uflow_verif))]
 use std::net;
+#[cfg(uflow_verif)]
+use crate::verif::net;
 use std::rc::Rc;
+#[cfg(not(uflow_verif))]
 use std::time;
+#[cfg(uflow_verif)]
+use crate::verif::time;
 
 use crate::EndpointConfig;
 use crate::frame::serial::Serialize;
